@@ -2331,11 +2331,24 @@ class Problem(object, metaclass=ProblemMetaclass):
                                   "in the case is not found in the model.")
 
         if outputs:
+            if case_is_dict:
+                abs_names = {}
+            else:
+                # a case recorded on a subsystem is keyed on names promoted to that subsystem,
+                # which the model's resolver doesn't know, so have the absolute names at hand.
+                abs_names = dict(zip(outputs, outputs.absolute_names()))
+
             for name in outputs:
                 if set_later(name):
                     continue
 
-                if resolver.is_prom(name):
+                abs_name = abs_names.get(name)
+                if not resolver.is_prom(name) and isinstance(abs_name, str) and \
+                        resolver.is_abs(abs_name, 'output'):
+                    if not set_later(abs_name):
+                        model.set_val(abs_name, outputs[name])
+
+                elif resolver.is_prom(name):
                     if case_is_dict:
                         val = outputs[name]['val']
                     else:
